@@ -205,12 +205,19 @@ def check_direct(acc):
     """ge_polyhedron_config objects built directly: custom row index, non-default default_prio_vector, integer columns, dtype int32."""
     import itertools as it
     mats = [[[1, 1, 1, 0], [-1, -1, 0, -1]], [[0, -2, 1, 1]], [[2, 1, 1, -1], [0, 1, -1, 0], [-3, -1, -1, -1]]]
+    # entries at the edges of the fixed-width integer types (a packed matrix must come back with exactly these values)
+    for e in (127, 128, 129, -128, -129, 255, 256, 32767, 32768, 32769, -32768, -32769, 65535, 65536, 2 ** 31 - 1, 2 ** 31, 2 ** 31 + 1,
+              -2 ** 31, -2 ** 31 - 1, 2 ** 53 + 1, 2 ** 62):
+        mats.append([[e, 1, -1, 0], [0, -1, 1, 1]])
+        mats.append([[1, e, -1, 2], [-e, 3, 1, -e]])
     for mi, M in enumerate(mats):
         ncol = len(M[0]) - 1
         for vi, variables in enumerate(([], [puan.variable.support_vector_variable()] + [puan.variable(f"v{j}", (0, 1) if j % 2 else (-1, 2)) for j in range(ncol)])):
             for ii, index in enumerate(([], [puan.variable(f"row{i}", (0, 1)) for i in range(len(M))], list(range(10, 10 + len(M))))):
                 for di, dpv in enumerate((None, np.array([-(j + 1) for j in range(ncol)]))):
                     for dt in (np.int64, np.int32):
+                        if dt is np.int32 and np.abs(np.array(M, dtype=object)).max() > 2 ** 31 - 1:
+                            continue
                         case = {"kind": "direct", "m": mi, "v": vi, "i": ii, "d": di, "dtype": dt.__name__}
                         acc.n("traces")
                         acc.n("transitions", 2)
